@@ -377,12 +377,14 @@ def _call(model, rng, form, acc, ident, want_direction):
             if ex.status == "optimal":
                 acc.violation(f"C04/{form}/raised-although-optimum-exists", f"{form} raised {type(e).__name__} but the optimum {float(ex.obj)} exists", dict(ident))
             elif form == "slim(error_value=None)":
+                # optimize(raise_error=True) documents a plain OptimizationError; slim_optimize
+                # "raises the matching exception": the classes cobra.exceptions documents per solver status
+                # (the harness's own table - the library's table is what is being observed)
                 status = model.solver.status
-                from cobra.exceptions import OPTLANG_TO_EXCEPTIONS_DICT
-
-                want = OPTLANG_TO_EXCEPTIONS_DICT.get(status, OptimizationError)
-                if type(e) is not want:
-                    acc.violation("C04/slim_optimize/exception-class", f"status {status} raised {type(e).__name__}, mapped class is {want.__name__}", dict(ident))
+                want = {"infeasible": "Infeasible", "unbounded": "Unbounded", "feasible": "FeasibleButNotOptimal", "undefined": "UndefinedSolution"}.get(status)
+                acc.count("exception_classes_checked")
+                if want is not None and type(e).__name__ != want:
+                    acc.violation("C04/slim_optimize/exception-class", f"solver status {status} raised {type(e).__name__}, the matching exception is {want}", dict(ident))
                 if ex.status == "infeasible" and isinstance(e, Unbounded) or ex.status == "unbounded" and isinstance(e, Infeasible):
                     acc.violation("C04/slim_optimize/exception-contradicts-truth", f"raised {type(e).__name__} but the problem is {ex.status}", dict(ident))
         elif form.startswith("optimize"):
